@@ -638,14 +638,77 @@ func conformBody(x *engine.Exec, c *DocCase) {
 	}
 }
 
+// jsonAfterRejected: "every valid text is accepted" also by a Parser that has just rejected another text: Parser.Parse starts
+// a new document (it resets the parser), so a consumer that keeps one Parser and skips bad records must get the same
+// verdict and value as from a new one. Rejected first texts: every proper prefix of a set of documents that end inside a
+// string, an escape, a number, a literal, a key, after a comma or a colon - and some structurally wrong ones.
+func jsonAfterRejected() engine.Family {
+	bsl := "\\"
+	full := []string{`"C:` + bsl + bsl + `x"`, `"a` + bsl + `u00e9b"`, `{"k` + bsl + `n":[1.5e3,true,null],"":"v"}`, `[-12.5,{"a":false}]`, `{"a":"` + bsl + `""}`}
+	var rejected []string
+	seen := map[string]bool{}
+	for _, d := range full {
+		for i := 1; i < len(d); i++ {
+			if !seen[d[:i]] {
+				seen[d[:i]] = true
+				rejected = append(rejected, d[:i])
+			}
+		}
+	}
+	rejected = append(rejected, `]`, `{,}`, `[1 2]`, `{"a" 1}`, `"`+"\x01"+`"`, `nul`, `-`, `[1,]`)
+	valid := []string{`{"":1,"b":2}`, `{"` + bsl + bsl + `":"x"}`, `{"a":true}`, `[1.5]`, `12`, `"x"`, `[]`, `{"k":{"":[null]}}`, `-0.5e1`, `"` + bsl + `t"`, `[18446744073709551615]`, `true`}
+	return engine.Family{Name: "json-after-rejected", Arity: []int{len(rejected)}, Body: func(x *engine.Exec) {
+		bad := rejected[x.Choose(len(rejected))]
+		good := valid[x.Choose(len(valid))]
+		x.Case("after-rejected|"+bad+"|"+good, true)
+		x.Sample(func() interface{} { return map[string]interface{}{"first_text": bad, "second_text": good} })
+		ref := refOf(codecJSON, []byte(good))
+		if ref.Status != model.Complete || len(ref.Values) != 1 {
+			engine.Fail("json-after-rejected: %q is not a single valid document", good)
+		}
+		rec := model.NewRecorder()
+		var err1, err2 error
+		mark := 0
+		res := guard(int64(40000+400*(len(bad)+len(good))), func() error {
+			p := codecJSON.NewParser(rec)
+			err1 = codecJSON.ParseWith(p, exact([]byte(bad)))
+			mark = len(rec.Evs)
+			err2 = codecJSON.ParseWith(p, exact([]byte(good)))
+			return nil
+		})
+		wit := func() interface{} {
+			return map[string]interface{}{"first_text": bad, "first_err": errStr(err1), "second_text": good, "second_err": errStr(err2), "second_events": model.EventsString(rec.Evs[mark:]), "ref_value": ref.Values[0].String()}
+		}
+		if res.Bad() {
+			x.Violation("json.Parser.Parse", res.Symptom(), "after-rejected", res.Panic+res.Where, wit())
+			return
+		}
+		if err1 == nil {
+			return // the first text was accepted: not this family's business (the conformance families judge single texts)
+		}
+		if err2 != nil {
+			x.Violation("json.Parser.Parse", "valid-rejected", "after-rejected", "a valid text is rejected by a parser that has just rejected another text: "+errStr(err2), wit())
+			return
+		}
+		got, err := model.ValuesOf(rec.Evs[mark:])
+		if err != nil || len(got) != 1 || !model.Equal(ref.Values[0], got[0], model.Exact) {
+			x.Violation("json.Parser.Parse", "wrong-value", "after-rejected", fmt.Sprintf("want %s", ref.Values[0]), wit())
+			return
+		}
+		x.Count("accepted_after_rejected", 1)
+	}}
+}
+
 func init() {
 	register(func() {
 		engine.Register(&engine.Check{
 			ID: "C04", Level: "exploration",
 			Rule:        "four exhaustive JSON sub-languages: all sequences of <=N tokens over { } [ ] , : \"a\" 1 true (valid and invalid structure), all string literals of <=k atoms over 21 atoms (raw multi-byte, every escape, surrogate pairs, lone surrogates) in 3 positions, ~1600 number literals x 10 terminating contexts, all whitespace strings <=2 at every token boundary of 10 documents, nesting up to 64; each parsed by the real parser and compared with the reference decoder refjson (math/big numbers); distinct by document bytes, non-trivial = more than one byte",
 			Assumptions: []string{"refjson implements RFC 8259 (cross-checked against encoding/json in mc/model tests)", "documents outside the four sub-languages are not explored"},
-			Families:    func(tier string) []engine.Family { return jsonDocFamilies(conformScope(tier), conformBody) },
-			Require:     []string{"values_compared", "ref_malformed"},
+			Families: func(tier string) []engine.Family {
+				return append(jsonDocFamilies(conformScope(tier), conformBody), jsonAfterRejected())
+			},
+			Require: []string{"values_compared", "ref_malformed", "accepted_after_rejected"},
 		})
 		engine.Register(&engine.Check{
 			ID: "C05", Level: "exploration",
